@@ -13,7 +13,8 @@ Record X (ext : list nat) (s : state) : Prop := mkX {
          is_phantom w = false /\ worker_exists s w = true /\ k_task (get_worker s w) = Some t /\ t_resp (get_task s t) = None;
   XB : forall w t, worker_exists s w = true -> k_task (get_worker s w) = Some t -> ~ In t ext ->
          t_worker (get_task s t) = Some w;
-  XC : forall w, k_wait (get_worker s w) = true -> k_task (get_worker s w) = None;
+  (* (a waiting worker holds no task: not needed for C01 and not kept, see Sched-proofs.md) *)
+  XC : forall w, k_wait (get_worker s w) = true -> True;
   XQ : forall i o, In o (v_qops (get_inv s i)) -> op_alive s o = true /\ o_inv (get_op s o) = i;
   XQn : forall i, NoDup (v_qops (get_inv s i));
   XL : forall o, op_alive s o = true -> ~ In (tsk s o) ext -> queued s o -> idle_live s (tsk s o);
@@ -155,7 +156,7 @@ Lemma X_transfer : forall ext s s',
              worker_exists s' w = true /\ k_task (get_worker s' w) = k_task (get_worker s w)) ->
   (forall w t, worker_exists s' w = true -> k_task (get_worker s' w) = Some t -> ~ In t ext ->
              worker_exists s w = true /\ k_task (get_worker s w) = Some t) ->
-  (forall w, k_wait (get_worker s' w) = true -> k_task (get_worker s' w) = None) ->
+  (forall w, k_wait (get_worker s' w) = true -> True) ->
   X ext s -> X ext s'.
 Proof.
   intros ext s s' HT HO HOa HQ HQn HW1 HW2 HC [A B C Q Qn L O1 O2].
@@ -340,7 +341,7 @@ Lemma X_transfer_io : forall ext s s',
              worker_exists s' w = true /\ k_task (get_worker s' w) = k_task (get_worker s w)) ->
   (forall w t, worker_exists s' w = true -> k_task (get_worker s' w) = Some t -> ~ In t ext ->
              worker_exists s w = true /\ k_task (get_worker s w) = Some t) ->
-  (forall w, k_wait (get_worker s' w) = true -> k_task (get_worker s' w) = None) ->
+  (forall w, k_wait (get_worker s' w) = true -> True) ->
   X ext s -> X ext s'.
 Proof.
   intros ext s s' E1 E2 HQ HQn HW1 HW2 HC HX. pose proof HX as [A B C Q Qn L O1 O2].
@@ -394,7 +395,6 @@ Proof.
   - intros i. rewrite Hi. apply Qn.
   - intros w He _ _. rewrite Hex, Hw. auto.
   - intros w t He Hk _. rewrite Hex in He. rewrite Hw in Hk. auto.
-  - intros w. rewrite Hw. apply C.
 Qed.
 
 Lemma X_delscq : forall ext s k, NoDup (map fst (s_scqs s)) -> q_workers (get_scq s k) = [] -> X ext s ->
@@ -417,7 +417,6 @@ Proof.
   - intros i. rewrite Hi. destruct (skey_eqb (i_sk i) k); [constructor|apply Qn].
   - intros w He _ _. rewrite Hex, Hw. auto.
   - intros w t He Hk _. rewrite Hex in He. rewrite Hw in Hk. auto.
-  - intros w. rewrite Hw. apply C.
 Qed.
 
 (* queue records: updates that keep the worker table *)
@@ -432,7 +431,6 @@ Proof.
   - intros i. rewrite Hi. apply Qn.
   - intros w He _ _. rewrite Hex, Hw. auto.
   - intros w t He Hk _. rewrite Hex in He. rewrite Hw in Hk. auto.
-  - intros w. rewrite Hw. apply C.
 Qed.
 
 (* workers *)
@@ -440,7 +438,7 @@ Lemma X_upd_worker : forall ext s w f,
   let v := f (get_worker s w) in
   (forall t, k_task v = Some t -> k_task (get_worker s w) = Some t \/ In t ext) ->
   (forall t, k_task (get_worker s w) = Some t -> k_task v = Some t \/ In t ext) ->
-  (k_wait v = true -> k_task v = None) ->
+  (k_wait v = true -> True) ->
   X ext s -> X ext (upd_worker w f s).
 Proof.
   intros ext s w f v H1 H2 H3 HX. pose proof HX as [A B C Q Qn L O1 O2].
@@ -458,7 +456,6 @@ Proof.
   - intros w' t He Hk Hn. rewrite Hex in He. rewrite Hgw in Hk. split; [exact He|].
     destruct (wref_eqb w' w && worker_exists s w) eqn:E; [|exact Hk].
     apply andb_true_iff in E. destruct E as [E _]. apply wref_eqb_eq in E. subst w'. destruct (H1 t Hk) as [Ho|Hin]; [exact Ho|contradiction].
-  - intros w'. rewrite Hgw. destruct (wref_eqb w' w && worker_exists s w); [exact H3|apply C].
 Qed.
 
 Lemma X_newworker : forall ext s w n, worker_exists s w = false -> X ext s ->
@@ -496,7 +493,6 @@ Proof.
   - intros w' He Hk _. split; [apply Hex2; exact He|]. destruct (Hgw w') as [E | [ -> _ ]]; [rewrite E; reflexivity|congruence].
   - intros w' t He Hk _. destruct (Hgw w') as [E | [ -> E ]]; [|rewrite E in Hk; discriminate]. rewrite E in Hk.
     destruct (Hex w' He) as [H | -> ]; [auto|]. exfalso. unfold get_worker, worker_exists in *. destruct (aget wref_eqb w (q_workers (get_scq s (w_sk w)))); [discriminate|discriminate].
-  - intros w'. destruct (Hgw w') as [E|[_ E]]; rewrite E; [apply C|reflexivity].
 Qed.
 
 Lemma X_delworker : forall ext s w, NoDup (map fst (q_workers (get_scq s (w_sk w)))) ->
@@ -514,7 +510,6 @@ Proof.
   - intros w' He Hk' Hn'. rewrite Hex, Hgw. destruct (wref_eqb w' w) eqn:E; [|auto].
     apply wref_eqb_eq in E. subst w'. exfalso. destruct (k_task (get_worker s w)) as [t|] eqn:Et; [|congruence]. exact (Hn' t eq_refl (Hk t eq_refl)).
   - intros w' t He Hk' _. rewrite Hex in He. rewrite Hgw in Hk'. destruct (wref_eqb w' w); [discriminate|auto].
-  - intros w'. rewrite Hgw. destruct (wref_eqb w' w); [discriminate|apply C].
 Qed.
 
 (* ---- leaving a critical section ------------------------------------------------------------------------------ *)
